@@ -4,14 +4,14 @@ Open Scope Z_scope.
 
 Record gst := mkG { gs_last : obs; gs_gb : gbc; gs_ri : bool; gs_picto : pictoSeq }.
 Definition gproj (cr : cursor) : gst := mkG (c_r cr) (c_grapheme cr) (c_gRIOdd cr) (c_pictoSequence cr).
-Definition gstep (s : gst) (r next : obs) : gst * bool :=
+Definition gstep (s : gst) (r next : obs) (aft : lbc) : gst * bool :=
   let '(picto, gb11) := update_picto (gs_picto s) (o_pic r) (o_gb r) in
   let '(gri, gb1213) := update_grapheme_ri (gs_ri s) (o_gb r) in
   (mkG r (o_gb r) gri picto, grapheme_decision (gs_last s) r (gs_gb s) (o_gb r) gb11 gb1213).
 
-Lemma step_gproj cr i r next :
-  gproj (fst (fst (step cr i r next))) = fst (gstep (gproj cr) r next)
-  /\ a_grapheme (snd (fst (step cr i r next))) = snd (gstep (gproj cr) r next).
+Lemma step_gproj cr i r next aft :
+  gproj (fst (fst (step cr i r next aft))) = fst (gstep (gproj cr) r next aft)
+  /\ a_grapheme (snd (fst (step cr i r next aft))) = snd (gstep (gproj cr) r next aft).
 Proof.
   unfold step, gstep. cbv zeta. cbn [gproj gs_picto gs_ri gs_last gs_gb start_iteration c_pictoSequence c_isExtPic c_grapheme c_gRIOdd c_prev c_r c_prevGrapheme].
   destruct (update_picto _ _ _) as [picto gb11].
@@ -39,8 +39,8 @@ Proof. repeat split. Qed.
 Lemma gbc_beq_eq a b : gbc_beq a b = true <-> a = b.
 Proof. split; [apply internal_gbc_dec_bl | apply internal_gbc_dec_lb]. Qed.
 
-Lemma ginv_step left s r next :
-  ginv left s -> forallb obs_wf_g left = true -> obs_wf_g r = true -> ginv (r :: left) (fst (gstep s r next)).
+Lemma ginv_step left s r next aft :
+  ginv left s -> forallb obs_wf_g left = true -> obs_wf_g r = true -> ginv (r :: left) (fst (gstep s r next aft)).
 Proof.
   intros (H1 & H2 & H3 & H4) Hleft Hwf.
   unfold obs_wf_g in Hwf. apply andb_true_iff in Hwf as [Hwf Hlf]. apply andb_true_iff in Hwf as [Hpic Hcr].
@@ -77,9 +77,9 @@ Proof.
 Qed.
 
 (* ---- decision ---- *)
-Lemma gdecision left s r next right' :
+Lemma gdecision left s r next aft right' :
   ginv left s -> left <> [] -> forallb obs_wf_g left = true -> obs_wf_g r = true ->
-  snd (gstep s r next) = gb_boundary left (r :: right').
+  snd (gstep s r next aft) = gb_boundary left (r :: right').
 Proof.
   intros (H1 & H2 & H3 & H4) Hne Hleft Hwf.
   destruct left as [|a left']; [contradiction|]. clear Hne.
@@ -135,7 +135,7 @@ Proof.
     cbn [srun positions].
     set (next := match rest with [] => obs_psep | n :: _ => n end).
     rewrite !removelast_cons by (apply srun_nonempty || apply positions_nonempty).
-    rewrite (gdecision left s r next rest Hinv Hne Hl Hwr).
+    rewrite (gdecision left s r next (after_marks r rest) rest Hinv Hne Hl Hwr).
     f_equal. apply IH.
     + apply ginv_step; assumption.
     + discriminate.
@@ -150,7 +150,7 @@ Proof.
   intros Hwf. unfold compute_attrs.
   destruct (loop_total text (new_cursor text) 0 [] ltac:(lia) (wne_ok_new text)) as (attrs & E & L).
   rewrite E. cbn [bind]. eexists; split; [reflexivity|].
-  pose proof (loop_trace gproj gstep a_grapheme (fun _ _ => True) (fun a => eq_refl) (fun _ _ _ _ _ _ => I) (fun cr i r next _ _ => step_gproj cr i r next) text (new_cursor text) 0 [] attrs ltac:(lia) I E) as Ht.
+  pose proof (loop_trace gproj gstep a_grapheme (fun _ _ => True) (fun a => eq_refl) (fun _ _ _ _ _ _ _ => I) (fun cr i r next aft _ _ => step_gproj cr i r next aft) text (new_cursor text) 0 [] attrs ltac:(lia) I E) as Ht.
   cbn [map app] in Ht.
   unfold gb_spec.
   destruct text as [|r0 rest].
@@ -172,7 +172,7 @@ Proof.
     change (map a_grapheme (fix_first a0 :: a1 :: tl')) with (true :: map a_grapheme (a1 :: tl')).
     rewrite removelast_cons by discriminate. cbn [app]. f_equal. f_equal. rewrite Htl.
     apply srun_body.
-    + apply (ginv_step [] _ r0 next ginv_init eq_refl Hw0).
+    + apply (ginv_step [] _ r0 next _ ginv_init eq_refl Hw0).
     + discriminate.
     + cbn [forallb]. rewrite Hw0. reflexivity.
     + exact Hwr.
